@@ -8,6 +8,9 @@ trace : replays every operation sequence on a fresh Card(model, template=None) a
         outcome class, get_toc(), render(), bytes written by save(), every live node (walked through
         the dicts) with select(<path string>) and format(), and the metrics dict.
         PrettyTable is observed, not replaced: a recording subclass notes (field names, cells) -> text.
+        estimator_html_repr (add_model_plot) is controlled from outside the source: the module global
+        skops.card._model_card.estimator_html_repr is rebound to a wrapper that returns the generated HTML string
+        ("modelplot") or calls the real function once and records exactly what it returned ("realplot").
 oracle: checks the properties' observable statements directly against the implementation with an
         independent reference (harness/card_spec.py); used only after a proof or the correspondence broke.
 """
@@ -76,6 +79,44 @@ def real_pretty(header, cells):
         return None
 
 
+# --------------------------------------------------------------------------- estimator_html_repr: the oracle of add_model_plot
+HTML = {"next": None, "seen": None, "calls": 0}
+
+
+def install_html_hook():
+    """No source hook: rebind the name that _add_model_plot looks up in its module globals."""
+    import skops.card._model_card as mc
+    orig = mc.estimator_html_repr
+    if getattr(orig, "_verif_wrapper", False):
+        return
+
+    def estimator_html_repr(model):
+        HTML["calls"] += 1
+        out = HTML["next"] if HTML["next"] is not None else orig(model)
+        HTML["seen"] = str(out)       # the exact text the implementation goes on with (sklearn's ids change per call)
+        return out
+
+    estimator_html_repr._verif_wrapper = True
+    mc.estimator_html_repr = estimator_html_repr
+
+
+def real_estimator(name):
+    from sklearn.compose import ColumnTransformer
+    from sklearn.linear_model import LogisticRegression
+    from sklearn.pipeline import Pipeline
+    from sklearn.preprocessing import OneHotEncoder, StandardScaler
+    if name == "logreg":
+        return LogisticRegression()
+    if name == "pipeline":
+        return Pipeline([("scale", StandardScaler()), ("clf", LogisticRegression(C=0.5))])
+    if name == "columntransformer":
+        return ColumnTransformer([("num", StandardScaler(), [0, 1]), ("cat", OneHotEncoder(handle_unknown="ignore"), [2])])
+    if name == "pipeline-ct":
+        ct = ColumnTransformer([("num", StandardScaler(), ["a"]), ("cat", OneHotEncoder(), ["b"])], remainder="passthrough")
+        return Pipeline([("prep", ct), ("clf", LogisticRegression())])
+    raise KeyError(name)
+
+
 # --------------------------------------------------------------------------- building arguments
 class StubModel:
     """get_params is an oracle of the model: the harness chooses what it returns."""
@@ -102,8 +143,11 @@ def make_table(spec):
 
 
 def model_op(op):
-    """The operation as the Coq model receives it: every value already turned into its str() text."""
+    """The operation as the Coq model receives it: every value already turned into its str() text.
+    Call it AFTER apply_op: a "realplot" becomes a "modelplot" with the HTML text the implementation received."""
     kind = op[0]
+    if kind == "realplot":
+        return ["modelplot", op[1], op[2], HTML["seen"] if HTML["seen"] is not None else ""]
     if kind == "table":
         out = []
         for key, spec in op[3]:
@@ -134,6 +178,19 @@ def apply_op(card, op):
         elif kind == "hyper":
             card.model.params = dict(op[3])
             card.add_hyperparams(section=op[1], description=op[2])
+        elif kind == "modelplot":
+            HTML["next"], HTML["seen"] = op[3], None
+            try:
+                card.add_model_plot(section=op[1], description=op[2])
+            finally:
+                HTML["next"] = None
+        elif kind == "realplot":
+            HTML["next"], HTML["seen"] = None, None
+            stub, card.model = card.model, real_estimator(op[3])
+            try:
+                card.add_model_plot(section=op[1], description=op[2])
+            finally:
+                card.model = stub
         elif kind == "select":
             sel = card.select(op[1])
         elif kind == "chain":
@@ -266,6 +323,7 @@ def trace_case(ops, mode, build):
         oracle[key] = out
 
     for op in ops:
+        cls, sel = apply_op(card, op)
         mo = model_op(op)
         mops.append(mo)
         if op[0] == "table":
@@ -274,7 +332,6 @@ def trace_case(ops, mode, build):
                 h = [n for n, _ in texts]
                 c = [[v.replace("\n", "<br />") for v in vals] for _, vals in texts]
                 note(h, c, real_pretty(h, c))
-        cls, sel = apply_op(card, op)
         classes.append(cls)
         expected += [U + 7] + cps(cls)
         if sel is not None:
@@ -345,18 +402,33 @@ def dfcheck(seed, n):
     return out
 
 
+def whitespace_sets():
+    """the code points that the implementation's `re` matches with \\s in a str pattern (what re.sub(r"\\n\\s+") uses),
+    found through the same kind of substitution the card code performs, and the str.isspace() set"""
+    import re
+    pat = re.compile(r"\n\s+")
+    by_sub = [c for c in range(sys.maxunicode + 1) if pat.sub("", "a\n" + chr(c) + "b") == "ab"]
+    by_class = [c for c in range(sys.maxunicode + 1) if re.fullmatch(r"\s", chr(c))]
+    isspace = [c for c in range(sys.maxunicode + 1) if chr(c).isspace()]
+    return {"re_sub": by_sub, "re_class": by_class, "isspace": isspace}
+
+
 # --------------------------------------------------------------------------- main
 def main():
     req = json.load(sys.stdin)
     what = req["what"]
+    if what in ("trace", "oracle"):
+        install_html_hook()
     if what == "trace":
         install_recorder()
         res = [trace_case(ops, req["mode"], req["build"]) for ops in req["cases"]]
     elif what == "oracle":
         import card_spec
-        res = [card_spec.check_sequence(ops, new_card, apply_op, req.get("build")) for ops in req["cases"]]
+        res = [card_spec.check_sequence(ops, new_card, apply_op, req.get("build"), model_op) for ops in req["cases"]]
     elif what == "dfcheck":
         res = dfcheck(req["seed"], req["n"])
+    elif what == "whitespace":
+        res = whitespace_sets()
     else:
         raise SystemExit("unknown request " + what)
     json.dump(res, sys.stdout)
